@@ -89,7 +89,8 @@
    slot i has made sure its generation is even (or has completed its add) and nobody has released the
    index since; `pend` of a thread
    collects the entries of its running operation; `ustart`, `ulast`, `uprev` of a thread: clock
-   at the start of its latest update_state, what it returned, the snapshot generations before it. *)
+   at the start of its latest update_state, what it returned, the snapshot generations before it;
+   `dirty`, `orph`, `dead` of a thread: see the record. *)
 From V Require Import model.Base model.Conc model.Events.
 Open Scope N_scope.
 
@@ -162,7 +163,10 @@ Record clst := {
   rchange : N; rgen : N -> N; rdata : N -> N;
   (* ghost *)
   pend : list (N * N);
-  ustart : N; ulast : bool; uprev : N -> N
+  ustart : N; ulast : bool; uprev : N -> N;
+  dirty : bool;                       (* a call was abandoned under the current owner id, its recover has not completed *)
+  orph : list N;                      (* slots this thread left inside the known window (index released, generation CAS owed) *)
+  dead : list N                       (* epochs of this thread that were abandoned and recovered *)
 }.
 
 Record cgst := {
@@ -188,42 +192,57 @@ Definition digit (d : N) : N := if andb (N.leb 1 d) (N.leb d 30) then d else 31.
 Definition set_pc (l : clst) (c : cpc) : clst :=
   {| prog := prog l; pc := c; fuse := fuse l; arg := arg l; epoch := epoch l; handles := handles l;
      rchange := rchange l; rgen := rgen l; rdata := rdata l; pend := pend l;
-     ustart := ustart l; ulast := ulast l; uprev := uprev l |}.
+     ustart := ustart l; ulast := ulast l; uprev := uprev l; dirty := dirty l; orph := orph l; dead := dead l |}.
 Definition set_fuse (l : clst) (f : option nat) : clst :=
   {| prog := prog l; pc := pc l; fuse := f; arg := arg l; epoch := epoch l; handles := handles l;
      rchange := rchange l; rgen := rgen l; rdata := rdata l; pend := pend l;
-     ustart := ustart l; ulast := ulast l; uprev := uprev l |}.
+     ustart := ustart l; ulast := ulast l; uprev := uprev l; dirty := dirty l; orph := orph l; dead := dead l |}.
 Definition set_prog (l : clst) (p : list cop) : clst :=
   {| prog := p; pc := pc l; fuse := fuse l; arg := arg l; epoch := epoch l; handles := handles l;
      rchange := rchange l; rgen := rgen l; rdata := rdata l; pend := pend l;
-     ustart := ustart l; ulast := ulast l; uprev := uprev l |}.
+     ustart := ustart l; ulast := ulast l; uprev := uprev l; dirty := dirty l; orph := orph l; dead := dead l |}.
 Definition set_handles (l : clst) (h : list (option N)) : clst :=
   {| prog := prog l; pc := pc l; fuse := fuse l; arg := arg l; epoch := epoch l; handles := h;
      rchange := rchange l; rgen := rgen l; rdata := rdata l; pend := pend l;
-     ustart := ustart l; ulast := ulast l; uprev := uprev l |}.
+     ustart := ustart l; ulast := ulast l; uprev := uprev l; dirty := dirty l; orph := orph l; dead := dead l |}.
 Definition set_pend (l : clst) (p : list (N * N)) : clst :=
   {| prog := prog l; pc := pc l; fuse := fuse l; arg := arg l; epoch := epoch l; handles := handles l;
      rchange := rchange l; rgen := rgen l; rdata := rdata l; pend := p;
-     ustart := ustart l; ulast := ulast l; uprev := uprev l |}.
+     ustart := ustart l; ulast := ulast l; uprev := uprev l; dirty := dirty l; orph := orph l; dead := dead l |}.
 Definition set_arg (l : clst) (a : N) : clst :=
   {| prog := prog l; pc := pc l; fuse := fuse l; arg := a; epoch := epoch l; handles := handles l;
      rchange := rchange l; rgen := rgen l; rdata := rdata l; pend := pend l;
-     ustart := ustart l; ulast := ulast l; uprev := uprev l |}.
+     ustart := ustart l; ulast := ulast l; uprev := uprev l; dirty := dirty l; orph := orph l; dead := dead l |}.
 Definition set_epoch (l : clst) (e : N) : clst :=
   {| prog := prog l; pc := pc l; fuse := fuse l; arg := arg l; epoch := e; handles := handles l;
      rchange := rchange l; rgen := rgen l; rdata := rdata l; pend := pend l;
-     ustart := ustart l; ulast := ulast l; uprev := uprev l |}.
+     ustart := ustart l; ulast := ulast l; uprev := uprev l; dirty := dirty l; orph := orph l; dead := dead l |}.
 Definition set_snap (l : clst) (c : N) (rg rd : N -> N) : clst :=
   {| prog := prog l; pc := pc l; fuse := fuse l; arg := arg l; epoch := epoch l; handles := handles l;
      rchange := c; rgen := rg; rdata := rd; pend := pend l;
-     ustart := ustart l; ulast := ulast l; uprev := uprev l |}.
+     ustart := ustart l; ulast := ulast l; uprev := uprev l; dirty := dirty l; orph := orph l; dead := dead l |}.
 Definition set_ughost (l : clst) (s : N) (r : bool) (pv : N -> N) : clst :=
   {| prog := prog l; pc := pc l; fuse := fuse l; arg := arg l; epoch := epoch l; handles := handles l;
      rchange := rchange l; rgen := rgen l; rdata := rdata l; pend := pend l;
-     ustart := s; ulast := r; uprev := pv |}.
+     ustart := s; ulast := r; uprev := pv; dirty := dirty l; orph := orph l; dead := dead l |}.
+
+Definition set_crash (l : clst) (d : bool) (o dd : list N) : clst :=
+  {| prog := prog l; pc := pc l; fuse := fuse l; arg := arg l; epoch := epoch l; handles := handles l;
+     rchange := rchange l; rgen := rgen l; rdata := rdata l; pend := pend l;
+     ustart := ustart l; ulast := ulast l; uprev := uprev l; dirty := d; orph := o; dead := dd |}.
 
 (* the operation ends (returns or is abandoned) *)
 Definition done (l : clst) : clst := set_pend (set_fuse (set_pc l Idle) None) [].
+
+(* the known window: remove() has released the index and still owes the generation CAS *)
+Definition window_slot (p : cpc) : option N :=
+  match p with
+  | IncLoad (KRem i _) | IncCas _ (KRem i _) | RemCasGen i _ => Some i
+  | _ => None
+  end.
+(* the call is abandoned: the owner is dead until its recover completes *)
+Definition abandon (l : clst) : clst :=
+  set_crash (done l) true (match window_slot (pc l) with Some i => i :: orph l | None => orph l end) (dead l).
 
 (* ---- global state updates ---- *)
 Definition set_cells (g : cgst) (c : N -> N) : cgst :=
@@ -418,7 +437,8 @@ Definition step_acc (t : nat) (g : cgst) (l : clst) : option (cgst * clst * list
     Some (g, set_pc l (RecIncChange acc false), [ld 16 B_IGEN 0 Relaxed (igen g)])
   | RecIncChange acc locked =>
     Some (complete g (pend l),
-          set_epoch (set_handles (done l) (map (fun _ => None) (handles l))) (epoch l + 1),
+          set_crash (set_epoch (set_handles (done l) (map (fun _ => None) (handles l))) (epoch l + 1))
+                    false (orph l) (if dirty l then epoch l :: dead l else dead l),
           [fadd_ev 43 B_CHANGE 0 (change g); ERet (rc 3 (2 * acc + bool_code locked))])
   (* ---------------- update_state ---------------- *)
   | UpdDist0 =>
@@ -450,7 +470,7 @@ Definition step (t : nat) (g : cgst) (l : clst) : option (cgst * clst * list ev)
   | Some O =>
     match pc l with
     | Idle => step_acc t g l            (* unreachable: the fuse is cleared whenever an operation ends *)
-    | _ => Some (tick g, done l, [])
+    | _ => Some (tick g, abandon l, [])
     end
   | Some (S k) =>
     match pc l with
@@ -465,7 +485,7 @@ Definition g_init (c d0 d1 d2 : N) : cgst :=
      gens := fun _ => 0; datas := fun _ => 0; change := 0; clock := 0; published := fun _ => []; oplog := []; settled := fun _ => false |}.
 Definition l_init (p : list cop) : clst :=
   {| prog := p; pc := Idle; fuse := None; arg := 0; epoch := 0; handles := []; rchange := 0; rgen := fun _ => 0; rdata := fun _ => 0;
-     pend := []; ustart := 0; ulast := false; uprev := fun _ => 0 |}.
+     pend := []; ustart := 0; ulast := false; uprev := fun _ => 0; dirty := false; orph := []; dead := [] |}.
 Definition init (c d0 d1 d2 : N) (progs : nat -> list cop) : cfg cgst clst :=
   (g_init c d0 d1 d2, fun t => l_init (progs t)).
 
@@ -480,3 +500,12 @@ Definition final_obs (g : cgst) : N * N :=
 Definition crash_free_op (o : cop) : bool :=
   match o with CAdd _ (Some _) => false | CRem _ (Some _) => false | _ => true end.
 Definition crash_free (progs : nat -> list cop) : Prop := forall t, forallb crash_free_op (progs t) = true.
+
+(* programs in which every abandoned call is immediately followed by the recover (predicate true)
+   of the owner that died in it *)
+Fixpoint crash_ok_prog (p : list cop) : bool :=
+  match p with
+  | [] => true
+  | o :: r => (if crash_free_op o then true else match r with CRec true :: _ => true | _ => false end) && crash_ok_prog r
+  end.
+Definition crash_ok (progs : nat -> list cop) : Prop := forall t, crash_ok_prog (progs t) = true.
